@@ -732,6 +732,52 @@ fn option_pairs(rep: &mut Reporter, mixed: &[u8], clean: &[u8], stave_faulty: &[
             }
         }
     }
+    // the earlier statistics file under other spellings of its name: whatever the tool makes of the extension, the run
+    // is either rejected before any output (non-zero exit, nothing on stdout) or treated like the plainly named
+    // file (same exit status, no panic) - nothing in between
+    {
+        let names = ["cmp.JSON", "cmp.Json", "cmp.TOML", "cmp.Toml", "cmp.jsonx", "cmp.json.bak", "cmp.", "cmp", "JSON", ".json", "cmp.raw"];
+        let mut jobs: Vec<(usize, Vec<String>, &str)> = Vec::new();
+        for ii in 0..2usize {
+            for mode in &modes {
+                for n in names {
+                    jobs.push((ii, mode.clone(), n));
+                }
+            }
+        }
+        let jres = par_map(&jobs, |_, (ii, mode, name)| {
+            let scratch = Scratch::new("c16x");
+            let input = scratch.file("in.raw", inputs[*ii]);
+            let toml = name.to_ascii_lowercase().contains("toml");
+            let refp = scratch.join(if toml { "ref.toml" } else { "ref.json" });
+            let mut a = vec![input.display().to_string()];
+            a.extend(mode.iter().cloned());
+            a.extend(s(&["-S", &refp.display().to_string(), "-D", if toml { "toml" } else { "json" }]));
+            let r0 = Run::new(&a).cwd(&scratch.path).run();
+            let Ok(txt) = std::fs::read(&refp) else { return Some(("no-reference-stats".to_string(), r0.stderr_str())) };
+            let base_errors = split_cli_errors(&r0.stderr_str()).iter().any(|m| m.contains("[E"));
+            let inp = scratch.file(name, &txt);
+            let mut b = vec![input.display().to_string()];
+            b.extend(mode.iter().cloned());
+            b.extend(s(&["-i", &inp.display().to_string(), "-E", "7"]));
+            let r = Run::new(&b).cwd(&scratch.path).run();
+            if r.crashed() {
+                return Some(("crash".to_string(), format!("signal {:?}", r.signal)));
+            }
+            let panicked = r.stderr_str().contains("panicked at");
+            let rejected = r.status != Some(0) && r.stdout.is_empty() && !panicked;
+            let accepted = r.status == Some(if base_errors { 7 } else { 0 }) && !panicked;
+            if !rejected && !accepted {
+                return Some(("neither-rejected-nor-processed".to_string(), format!("exit status {:?}, {} bytes on stdout, panic text {}: {}", r.status, r.stdout.len(), panicked, r.stderr_str().lines().find(|l| l.contains("panicked") || l.contains("ERROR")).unwrap_or(""))));
+            }
+            None
+        });
+        for ((ii, mode, name), r) in jobs.iter().zip(jres.iter()) {
+            if let Some((sig, desc)) = r {
+                rep.violation(Violation { signature: format!("stats-file-name:{sig}"), description: format!("{desc} [`{}` -i {name} -E 7 on input {ii}]", mode.join(" ")), replay: json!({"mode": mode, "name": name, "input": ii}) });
+            }
+        }
+    }
     let res = par_map(&cases, |_, c| {
         let sem: Vec<String> = c.set.iter().filter(|i| atoms[**i].semantic).flat_map(|i| atoms[*i].args.clone()).collect();
         let all: Vec<String> = c.set.iter().flat_map(|i| atoms[*i].args.clone()).collect();
